@@ -122,7 +122,7 @@ func (i *interpreter) ensureInit(pkg *ssa.Package) {
 		}
 	}
 	initFn := pkg.Func("init")
-	if initFn == nil || initFn.Blocks == nil {
+	if initFn == nil || initFn.Blocks == nil || noInitPkgs[pkg.Pkg.Path()] {
 		return
 	}
 	i.initDepth++
@@ -143,6 +143,12 @@ func (i *interpreter) ensureInit(pkg *ssa.Package) {
 		}()
 		callSSA(i, nil, token.NoPos, initFn, nil, nil)
 	}()
+}
+
+// noInitPkgs: packages whose globals are only passed to intrinsics (their initialisers
+// need package reflect); the globals stay zero-valued.
+var noInitPkgs = map[string]bool{
+	"k8s.io/apimachinery/pkg/api/equality": true, // Semantic: receiver of the DeepEqual intrinsic
 }
 
 func (fr *frame) get(key ssa.Value) value {
@@ -548,6 +554,12 @@ func callSSA(i *interpreter, caller *frame, callpos token.Pos, fn *ssa.Function,
 		if ext := intrinsics[name]; ext != nil {
 			i.ctx.w.intr[name]++
 			return ext(fr, args)
+		}
+		if fn.Pkg != nil {
+			switch fn.Pkg.Pkg.Path() {
+			case "reflect", "internal/reflectlite", "internal/abi", "unsafe", "runtime", "internal/unsafeheader":
+				panic(engineAbort{"UNSUPPORTED", "reflection/runtime internals reached: " + name + " | " + caller.stack()})
+			}
 		}
 		if fn.Blocks == nil {
 			if ext := lateIntrinsic(name); ext != nil {
